@@ -1,6 +1,8 @@
 """C13 - every cache back-end is a faithful key-value map of states."""
 from . import cachefam as F
 
+from . import extra as X
+
 EXPLANATION = ("Structural clauses of the key-value contract over every cache class of liquer/cache.py: API "
                "completeness, data-presence witness per back-end, memo invalidation, one-row-per-key, combinators "
                "reaching both children, verbatim forwarding, injective key->location, codec discipline of the "
@@ -20,3 +22,6 @@ def run(chk):
     F.rule_remove_both_halves(chk, repo, "C13.8")
     F.rule_location_agreement(chk, repo, "C13.9")
     F.rule_memory_copy(chk, repo, "C13.10")
+    X.rule_codec_pairs(chk, "C13.11")
+    X.rule_memory_per_key_locality(chk, "C13.12")
+    X.rule_memo_sentinel(chk, "C13.13")
